@@ -12,7 +12,7 @@ DISTINCT_RULE = (
 RULES = ["sum", "complete-iff-zero", "monotone", "replace-moves-size"]
 MINIMA = {"quick": {"rule_sum": 20000, "rule_complete-iff-zero": 5000}, "thorough": {"rule_sum": 500000}}
 ASSUMPTIONS = ["requested size is what the strategy passed at the request boundary", "CPython 3.12, betfairlightweight resource classes"]
-WEIGHTS = [("hostile", 4), ("plain", 1), ("thin", 1), ("lines", 1), ("nobpe", 1), ("fullmatch", 1), ("multi", 1), ("fastlat", 2), ("recorded", 1), ("recorded_event", 1), ("event", 2)]
+WEIGHTS = [("hostile", 4), ("plain", 1), ("thin", 1), ("lines", 1), ("nobpe", 1), ("fullmatch", 1), ("multi", 1), ("fastlat", 2), ("recorded", 1), ("recorded_event", 1), ("event", 2), ("availprices", 1)]
 
 
 def plan(tier, seed):
